@@ -28,7 +28,7 @@ OBLIGATIONS = [
     dict(name='H2.skipToEol', harness='C19/h_mkunits.cpp', entry='harness_mkunit', noinline=['skipToEndOfLine'], expect_functions=['skipToEndOfLine'],
          unwind=8, unwind_is_oracle=True, params_quick=lens(0, 4, extra={'VF_UNIT': 3}), params_thorough=lens(0, 6, extra={'VF_UNIT': 3}), unwind_thorough=10),
     dict(name='H2b.mkparse', harness='C19/h_mkparse.cpp', entry='harness_mkparse', native_tus=['lib/llvm/Support/SmallVector.cpp'], noinline=[r'MakefileDepsParser5parseEv'], expect_functions=[r'MakefileDepsParser5parseEv'],
-         unwind='VF_N+2', unwind_is_oracle=True, params_quick=lens(0, 0), params_thorough=lens(0, 0), timeout=300),
+         unwind='VF_N+2', unwind_is_oracle=True, params_quick=lens(0, 0), params_thorough=lens(0, 1), timeout=300, timeout_thorough=1800, field_sens=16),
     dict(name='H3.depinfo', harness='C19/h_depinfo.cpp', entry='harness_depinfo', noinline=[r'DependencyInfoParser5parseEv'], expect_functions=[r'DependencyInfoParser5parseEv'],
          tus=['lib/llvm/Support/StringRef.cpp'],
          unwind=8, unwind_is_oracle=True, params_quick=lens(0, 4), params_thorough=lens(0, 6), unwind_thorough=10, timeout=300, timeout_thorough=1500),
